@@ -15,7 +15,7 @@ from vf import c17_opf as G
 
 RULE = ("OPF problems (net.sn_mva in {1, 10, 100}, AC and DC) on 2-5 bus meshed 20 kV nets with 0-2 gens (gapped indices), sgens, controllable loads, storages, "
         "0-2 dclines, 15 % of the elements out of service, poly costs (integer/half-integer cp0/cp1/cp2/cq0/cq1/cq2) or "
-        "convex pwl costs (1-3 areas, 75 % with two or more) or both on all six element kinds; non-trivial = at least two cost entries and at "
+        "convex pwl costs (1-5 areas, 85 % with two or more) or both on all six element kinds; non-trivial = at least two cost entries and at "
         "least one entry on a load/storage/dcline or on an element that is out of service")
 ASSUMPTIONS = ["a DC OPF has no reactive power: reactive cost terms (cq*, pwl of power_type q) are not part of the DC problem (pypower drops the reactive rows) and are left out of the expected sum for rundcopp",
                "PIPS (AC and DC) is an oracle: only runs reporting success are judged, its exit tolerances are trusted",
@@ -198,6 +198,76 @@ def err_class(e):
     return type(e).__name__
 
 
+class _Stop(Exception):
+    pass
+
+
+def observe_ay(net, ac):
+    """the cost-variable constraints the real opf_setup builds: runs runopp/rundcopp up to (not including) the solver
+    with pandapower.pypower.opf_setup.makeAy wrapped.  Returns [[row, column or None, [[m per MW, b], ...]], ...]"""
+    import pandapower.pypower.opf as opfm
+    import pandapower.pypower.opf_setup as osm
+    from pandapower.pypower.idx_cost import MODEL, NCOST
+    rec = {}
+    orig_ay, orig_ex = osm.makeAy, opfm.opf_execute
+
+    def way(baseMVA, ng, gencost, pgbas, qgbas, ybas):
+        Ay, by = orig_ay(baseMVA, ng, gencost, pgbas, qgbas, ybas)
+        rec.update(baseMVA=float(baseMVA), gencost=gencost.copy(), ybas=int(ybas),
+                   Ay=(Ay.toarray() if hasattr(Ay, "toarray") else np.array(Ay, dtype=float)), by=np.array(by, dtype=float))
+        return Ay, by
+
+    def wex(om, ppopt):
+        raise _Stop()
+
+    osm.makeAy, opfm.opf_execute = way, wex
+    n0 = len(net.gen)
+    try:
+        (pp.runopp if ac else pp.rundcopp)(net)
+    except _Stop:
+        pass
+    except Exception:
+        return None
+    finally:
+        osm.makeAy, opfm.opf_execute = orig_ay, orig_ex
+        if len(net.gen) > n0:
+            net.gen = net.gen.drop(net.gen.index[n0:])
+    if "Ay" not in rec:
+        return None
+    Ay, by, y0 = rec["Ay"], rec["by"], rec["ybas"] - 1
+    iy = [int(i) for i in np.flatnonzero(rec["gencost"][:, MODEL] == 1)]
+    out = []
+    for j, i in enumerate(iy):
+        ks = [k for k in range(Ay.shape[0]) if Ay[k, y0 + j] == -1.0]
+        cols = sorted({int(c) for k in ks for c in np.flatnonzero(Ay[k, :y0])})
+        if len(ks) != int(rec["gencost"][i, NCOST]) - 1 or len(cols) > 1:
+            return "layout"
+        col = cols[0] if cols else None
+        out.append([i, col, [[(float(Ay[k, col]) / rec["baseMVA"]) if col is not None else 0.0, float(by[k])] for k in ks]])
+    if sum(len(r[2]) for r in out) != Ay.shape[0]:
+        return "layout"
+    return out
+
+
+def check_structure(ctx, net, cap, desc):
+    """hypotheses of C17_dcline_row_spec / C17_map_costs_rows_valid observed on the real tables"""
+    gi, aux, ndc = cap["gen_index"], cap.get("aux_gens", []), len(cap["dcl_index"])
+    ok = (len(aux) == 2 * ndc and gi[len(gi) - len(aux):] == aux and cap["n_gen_tab"] == len(gi)
+          and len(set(cap["dcl_index"])) == ndc)
+    if ok and ndc:
+        gt = cap["gen_table"]
+        ok = all(int(gt.bus.at[aux[2 * k + 1]]) == cap["dcl_from_bus"][k] for k in range(ndc))
+    ctx.corr_checked += 1
+    if not ok:
+        ctx.disagreement("net.gen is not user gens ++ (to-bus gen, from-bus gen) per dcline: index=%s aux=%s dcline=%s" % (
+            gi, aux, cap["dcl_index"]), desc)
+    ng = len(cap["gen"])
+    for key in ("gen", "sgen_controllable", "load_controllable", "storage_controllable", "ext_grid"):
+        v = cap["lookups"].get(key)
+        if v is not None and len(v) and int(np.max(v)) >= ng:
+            ctx.disagreement("lookup %s holds %d >= len(ppci gen) = %d" % (key, int(np.max(v)), ng), desc)
+
+
 def rows_of(gc):
     from pandapower.pypower.idx_cost import MODEL, NCOST, COST
     return [[int(r[MODEL]), int(r[NCOST]), [F(float(x)) for x in r[COST:]]] for r in gc]
@@ -376,6 +446,8 @@ def one_case(ctx, net, ac, tag, terms, pending, run_opf=True, sample=False):
                                             any(not bool(net[c["et"]].in_service.at[c["el"]]) for c in pcs + wcs))
     ctx.count("%s_costs_%d" % (tag, min(len(pcs) + len(wcs), 6)))
     ctx.count("sn_mva_%g" % float(net.sn_mva))
+    for w in wcs:
+        ctx.count("pwl_areas_%d%s" % (len(w["pts"]), "_mirrored" if w["et"] in G.NEG else ""))
     if any(len(w["pts"]) >= 2 for w in wcs):
         ctx.count("multi_area_pwl_sn_%g_%s" % (float(net.sn_mva), "ac" if ac else "dc"))
     for c in pcs + wcs:
@@ -398,6 +470,24 @@ def one_case(ctx, net, ac, tag, terms, pending, run_opf=True, sample=False):
     impl = [rows_of(cap["gencost"]), [None if not math.isfinite(v) else float(v) for v in tc]]
     terms.append(make_term(cap, pcs, wcs, xs))
     pending.append(dict(kind="build", impl=impl, desc=desc, tag=tag))
+    # which row every cost key addresses (observed: the real _get_gen_index while the auxiliary gens exist)
+    check_structure(ctx, net, cap, desc)
+    if cap.get("gen_rows"):
+        terms.append("run_rows %s %s" % (env_term(cap), cq.lst(["(%s, %s)" % (G.ETC[et], cq.z(el)) for et, el, _ in cap["gen_rows"]])))
+        pending.append(dict(kind="rows", impl=[r for _, _, r in cap["gen_rows"]], desc=desc, tag=tag))
+        for _, _, r in cap["gen_rows"]:
+            ctx.count("gen_row_" + ("none" if r is None else "error" if isinstance(r, str) else "row"))
+    # the cost-variable constraints of the real opf_setup (makeAy) against the model's ay_rows
+    if wcs:
+        ay = observe_ay(net, ac)
+        if ay is not None:
+            from pandapower.pypower.idx_gen import PMIN, PMAX
+            terms.append("run_ay %s %s %s %s %s %s" % (
+                env_term(cap), cq.lst([pc_term(c) for c in pcs]), cq.lst([wc_term(w) for w in wcs]),
+                cq.lst([cq.q(float(x)) for x in cap["gen"][:, PMIN]]), cq.lst([cq.q(float(x)) for x in cap["gen"][:, PMAX]]),
+                cq.b(not ac)))
+            pending.append(dict(kind="ay", impl=ay, desc=desc, tag=tag))
+            ctx.count("ay_observed_rows_%d" % min(len(ay), 3) if isinstance(ay, list) else "ay_layout_unexpected")
     Fg = failing_guards(cap, pcs, wcs, ac)
     for k in Fg:
         ctx.count("guard_fails:" + k)
@@ -440,6 +530,22 @@ def finish(ctx, terms, pending):
                 ctx.disagreement("gencost differs: impl=%s model=%s" % (_fmt(ri), _fmt(mod[0])), rec["desc"])
             elif not all(close(a, b_, 1e-9) for a, b_ in zip(ti, mod[1])):
                 ctx.disagreement("totcost differs: impl=%s model=%s" % (ti, [None if v is None else float(v) for v in mod[1]]), rec["desc"])
+        elif rec["kind"] == "rows":
+            ctx.corr_checked += 1
+            got = [m.s if isinstance(m, cq.Err) else (None if m is None else int(m)) for m in mod] if isinstance(mod, list) else mod
+            if got != rec["impl"]:
+                ctx.disagreement("_get_gen_index returns %s, model %s" % (rec["impl"], got), rec["desc"])
+        elif rec["kind"] == "ay":
+            ctx.corr_checked += 1
+            ok = isinstance(mod, list) and isinstance(rec["impl"], list) and len(mod) == len(rec["impl"])
+            if ok:
+                for ri, rm in zip(rec["impl"], mod):
+                    ok = ok and ri[0] == int(rm[0]) and (ri[1] is None or ri[1] == int(rm[1])) and len(ri[2]) == len(rm[2]) \
+                        and all(close(a[0], b_[0]) and close(a[1], b_[1]) for a, b_ in zip(ri[2], rm[2]))
+            if not ok:
+                ctx.disagreement("makeAy constraints differ: impl=%s model=%s" % (
+                    rec["impl"], [[int(r[0]), int(r[1]), [[float(x) for x in mb] for mb in r[2]]] for r in mod] if isinstance(mod, list) else mod),
+                    rec["desc"])
         else:
             settle(ctx, rec, mod)
 
@@ -480,7 +586,7 @@ def run(ctx):
                     net.poly_cost.at[i, "cp2_eur_per_mw2"] = 0.0
                     net.poly_cost.at[i, "cp0_eur"] = 0.0
         else:
-            net = G.gen_net(rng, pwl=pwl, q_cost=ac, sn_choices=(1.0, 10.0, 100.0))
+            net = G.gen_net(rng, pwl=pwl, q_cost=ac, sn_choices=(1.0, 10.0, 100.0), areas=(1, 2, 2, 3, 3, 4, 5))
         one_case(ctx, net, ac, ("ac" if ac else "dc") + ("_pwl" if pwl else "_poly"), terms, pending, run_opf=True, sample=k < 3)
     finish(ctx, terms, pending)
 
